@@ -56,6 +56,8 @@ def digitsVal (ds : List Char) : Nat := Nat.ofDigitChars 10 ds 0
 structure Num where
   val : Rat
   frac : Bool
+  /-- the decimal mark is a comma (meaningful when `frac`) -/
+  comma : Bool := false
   deriving DecidableEq, Repr, Inhabited
 
 def isMark (c : Char) : Bool := c == '.' || c == ','
@@ -69,10 +71,11 @@ def parseNum (cs : List Char) : Option (Num × List Char) :=
     | c :: r1 =>
       if isMark c then
         match takeDigits r1 with
-        | ([], _) => some (⟨digitsVal ip, false⟩, rest)
-        | (fp, r2) => some (⟨digitsVal ip + (digitsVal fp : Rat) / ((10 ^ fp.length : Nat) : Rat), true⟩, r2)
-      else some (⟨digitsVal ip, false⟩, rest)
-    | [] => some (⟨digitsVal ip, false⟩, [])
+        | ([], _) => some (⟨digitsVal ip, false, false⟩, rest)
+        | (fp, r2) =>
+          some (⟨digitsVal ip + (digitsVal fp : Rat) / ((10 ^ fp.length : Nat) : Rat), true, c == ','⟩, r2)
+      else some (⟨digitsVal ip, false, false⟩, rest)
+    | [] => some (⟨digitsVal ip, false, false⟩, [])
 
 /-- `(?:NUM\s*u)?` (with `ws`) or `(?:NUMu)?` (without): the captured number, if the group is
     there, and the rest; otherwise nothing is consumed -/
